@@ -187,7 +187,8 @@ def cases(ctx):
             for form in BF2_FORMS:
                 yield ("bf2kinds", t, name, form)
     for c in c05.cases(ctx):
-        yield ("edit",) + tuple(c[1:])
+        if len(c) == 3:                      # BF3 framing only (the BEC2 variants are C05's own business)
+            yield ("edit",) + tuple(c[1:])
 
 
 def call_entry(ctx, kind, fx, ds, text):
